@@ -1,10 +1,136 @@
-import CalicoVerif.Model.C02
+import CalicoVerif.Proofs.C02Hist
 /-!
 C02 — Felix's output stream never references something the dataplane lacks.
+
+Model: `CalicoVerif.Model.C02` (EventSequencer + AsyncCalcGraph flush logic).  Vocabulary
+(`Proofs/C02Spec`, `Proofs/C02Hist`): `DP` = the dataplane state described by a message stream,
+`DP.apply` = effect of one message, `WF d m` = message `m` is well-formed on arrival at state `d`
+(deltas add only absent / remove only present members of an existing set, removals name existing
+objects), `AllWF` / `AfterEach` = "for every message of the stream, in order", `execHist` = run a
+history (upstream calls interleaved with flushes at arbitrary points), `upHist` = the state upstream
+has declared, `ValidHist` = upstream respects the IP-set protocol, `ClosedAtFlushes` = the declared
+state is reference-closed whenever a flush happens (the calc graph's obligation).
+All theorems quantify over ALL histories and ALL placements of flushes.
 -/
 namespace CalicoVerif.C02
 
-/-- placeholder first theorem: an empty sequencer flushes nothing. -/
-theorem flush_init_empty : (({} : State).flush).2 = [] := by decide
+/-- (ii) `delta_wellformed` + "removals name only existing objects" + no panic: for every history of
+protocol-respecting upstream calls with flushes anywhere, the sequencer never panics and EVERY
+emitted message is well-formed against the dataplane state produced by all messages before it. -/
+theorem stream_wellformed (h : List Step) (hv : ValidHist {} h) :
+    ∃ s ms, execHist {} h = some (s, ms) ∧ AllWF {} ms := by
+  obtain ⟨s, ms, he, hw, _⟩ := hist_ok Inv.init h hv
+  exact ⟨s, ms, he, hw⟩
+
+/-- (iv) `coalesce_sound`: after any history followed by a flush, the dataplane state described by
+the whole emitted stream IS the state upstream has declared (IP sets incl. members, policies,
+profiles, endpoints, VTEPs, routes, pass-through objects). -/
+theorem coalesce_sound (h : List Step) (hv : ValidHist {} h) :
+    ∃ s ms, execHist {} (h ++ [.flush]) = some (s, ms) ∧ ({} : DP).applyAll ms = upHist {} h := by
+  obtain ⟨s, ms, he, _, hi⟩ := hist_ok Inv.init h hv
+  have hs := flush_synced hi
+  refine ⟨s.flush.1, ms ++ s.flush.2, execHist_append_flush he, ?_⟩
+  · rw [applyAll_append]; exact hs
+
+/-- (i) `flush_refs_closed`, IP set / policy / profile / endpoint part: if the state upstream has
+declared is reference-closed whenever a flush happens, then after EVERY SINGLE emitted message the
+dataplane holds no dangling reference: every policy's and profile's IP sets exist, every endpoint's
+policies and profiles exist.  (The route → VTEP part of the statement is false of the current code:
+`route_vtep_not_closed`.) -/
+theorem flush_refs_closed_partial (h : List Step) (hv : ValidHist {} h) (hc : ClosedAtFlushes {} h) :
+    ∃ s ms, execHist {} h = some (s, ms) ∧ AfterEach DP.closedMain {} ms :=
+  hist_closed Inv.init (by simp [DP.closedMain]) h hv hc
+
+/-- (iii) `insync_not_before`: whatever input events the AsyncCalcGraph loop processes (updates —
+abstracted to the upstream calls they cause —, status changes, timer ticks), an `InSync` message is
+in its output only if an `api.InSync` status is among the events processed so far. -/
+theorem insync_not_before (evs : List AcgEvent) (a : Acg) (ms : List Msg)
+    (hr : acgRun {} evs = some (a, ms)) (hm : Msg.inSync ∈ ms) : evs.any isInSyncStatus = true := by
+  have := (acg_run (a := {}) (by simp [AcgInv]) hr).2 hm
+  simpa using this
+
+/-! ### the route → VTEP part of (i) is FALSE of the current code -/
+
+/-- A route that needs VTEP `n2` is re-pointed (same destination) and the VTEP removed, both between
+two flushes. -/
+def routeVtepWitness : List Step :=
+  [Step.call (.routeUpdate "r" ⟨"a", some "n2"⟩), Step.call (.vtepUpdate "n2" "b"), Step.flush,
+   Step.call (.routeUpdate "r" ⟨"a", none⟩), Step.call (.vtepRemove "n2"), Step.flush]
+
+/-- Negation of the full-strength (i) for routes: a protocol-respecting history whose declared state
+is fully reference-closed at both flushes, and yet the emitted stream
+`vtep-upd n2; route-upd r→n2; vtep-rm n2; route-upd r` leaves route `r` pointing at the removed
+VTEP after the third message (`Flush` sends VTEP removes before route updates).  Reproduced on the
+real EventSequencer by the harness oracle (signature `dangling-route-vtep-until-route-update`). -/
+theorem route_vtep_not_closed :
+    ValidHist {} routeVtepWitness ∧ FullyClosedAtFlushes {} routeVtepWitness ∧
+    ∃ s ms, execHist {} routeVtepWitness = some (s, ms) ∧ ¬ AfterEach DP.closed {} ms := by
+  refine ⟨by simp [routeVtepWitness, ValidHist, upValid], ?_, ?_⟩
+  · simp only [routeVtepWitness, FullyClosedAtFlushes, upApply, DP.closed, DP.closedMain, DP.closedRoutes]
+    refine ⟨⟨⟨by simp, by simp, by simp⟩, ?_⟩, ⟨⟨by simp, by simp, by simp⟩, ?_⟩, trivial⟩
+    · intro dst r n h1 h2
+      simp only [fupd] at h1 ⊢
+      by_cases hd : dst = "r"
+      · simp only [hd, if_true, Option.some.injEq] at h1
+        subst h1; simp only [Option.some.injEq] at h2; subst h2; simp
+      · simp [hd] at h1
+    · intro dst r n h1 h2
+      simp only [fupd] at h1
+      by_cases hd : dst = "r"
+      · simp only [hd, if_true, Option.some.injEq] at h1
+        subst h1; simp at h2
+      · simp [hd] at h1
+  · have he : (execHist {} routeVtepWitness).map (·.2) = some [Msg.vtepUpdate "n2" "b", Msg.routeUpdate "r" ⟨"a", some "n2"⟩,
+        Msg.vtepRemove "n2", Msg.routeUpdate "r" ⟨"a", none⟩] := by decide
+    cases hx : execHist {} routeVtepWitness with
+    | none => simp [hx] at he
+    | some r =>
+      obtain ⟨s, ms⟩ := r
+      simp only [hx, Option.map_some, Option.some.injEq] at he
+      subst he
+      refine ⟨s, _, rfl, ?_⟩
+      intro h
+      simp only [AfterEach, DP.apply] at h
+      have := h.2.2.2.1.2 "r" ⟨"a", some "n2"⟩ "n2" (by simp [fupd]) rfl
+      simp [fupd] at this
+
+/-! ### non-vacuity -/
+
+/-- A non-trivial history satisfying the hypotheses of `stream_wellformed`, `coalesce_sound` and
+`flush_refs_closed_partial`: an IP set with a member, a policy using it, a profile, an endpoint using
+both, a flush, then member churn, an in-window remove/re-add of the IP set and a policy deactivation. -/
+def sampleHist : List Step :=
+  [Step.call (.ipsetAdded "s1" 0), Step.call (.memberAdded "s1" "10.0.0.1"),
+   Step.call (.policyActive ⟨"p", "", "gnp"⟩ ⟨"t", ["s1"]⟩), Step.call (.profileActive "prof" ⟨"t", []⟩),
+   Step.call (.endpointUpdate (.wep "e") (some ⟨⟨"x", ["prof"]⟩,
+     [⟨"default", none, "Deny", true, [⟨⟨"p", "", "gnp"⟩, ⟨none, false, false, false, true, true, "default"⟩⟩]⟩]⟩)),
+   Step.flush,
+   Step.call (.memberAdded "s1" "10.0.0.2"), Step.call (.memberRemoved "s1" "10.0.0.1"),
+   Step.flush,
+   Step.call (.endpointUpdate (.wep "e") none), Step.call (.policyInactive ⟨"p", "", "gnp"⟩),
+   Step.call (.ipsetRemoved "s1"), Step.call (.ipsetAdded "s1" 1),
+   Step.flush]
+
+example : (execHist {} sampleHist).map (·.2) = some
+    [Msg.ipsetUpdate "s1" 0 ["10.0.0.1"], Msg.policyUpdate ⟨"p", "", "gnp"⟩ ⟨"t", ["s1"]⟩, Msg.profileUpdate "prof" ⟨"t", []⟩,
+     Msg.wepUpdate "e" ⟨"x", ["prof"]⟩ [⟨"default", "Deny", [⟨"p", "", "gnp"⟩], [⟨"p", "", "gnp"⟩]⟩],
+     Msg.ipsetDelta "s1" ["10.0.0.2"] ["10.0.0.1"],
+     Msg.ipsetUpdate "s1" 1 [], Msg.wepRemove "e", Msg.policyRemove ⟨"p", "", "gnp"⟩] := by decide
+
+/-- hypotheses of the three history theorems hold for a history with member churn across flushes -/
+def smallHist : List Step :=
+  [Step.call (.ipsetAdded "s1" 0), Step.call (.memberAdded "s1" "m"), Step.call (.policyActive ⟨"p", "", "gnp"⟩ ⟨"t", ["s1"]⟩),
+   Step.flush, Step.call (.memberRemoved "s1" "m"), Step.flush]
+
+example : ValidHist {} smallHist ∧ ClosedAtFlushes {} smallHist := by
+  refine ⟨?_, ?_⟩
+  · simp [smallHist, ValidHist, upValid, upApply, fupd]
+  · simp [smallHist, ClosedAtFlushes, upApply, fupd, DP.closedMain]
+
+example : (execHist {} smallHist).map (·.2) = some
+    [Msg.ipsetUpdate "s1" 0 ["m"], Msg.policyUpdate ⟨"p", "", "gnp"⟩ ⟨"t", ["s1"]⟩, Msg.ipsetDelta "s1" [] ["m"]] := by decide
+
+/-- the hypothesis of `insync_not_before` is satisfiable with an `InSync` in the output -/
+example : (acgRun {} [.tick, .status .inSync []]).map (·.2) = some [Msg.inSync] := by decide
 
 end CalicoVerif.C02
